@@ -21,6 +21,25 @@ type PathQuery struct {
 	// EdgeOK, if set, is consulted for every conditional edge (If instruction, branch taken);
 	// returning false prunes the edge (used to follow only the err==nil / err!=nil side).
 	EdgeOK func(i *ssa.If, branch bool) bool
+	// Track lists variable cells (Alloc or captured FreeVar addresses) whose last stored value along the path is remembered;
+	// Target/Stop may ask for it with Tracked (a result variable assigned in branches and returned once at the end).
+	Track []ssa.Value
+	cur   []cellFact
+}
+
+type cellFact struct {
+	addr ssa.Value
+	val  ssa.Value
+}
+
+// Tracked returns the value last stored into the tracked cell on the path being examined (nil: no store yet on this path).
+func (q *PathQuery) Tracked(addr ssa.Value) ssa.Value {
+	for _, c := range q.cur {
+		if c.addr == addr {
+			return c.val
+		}
+	}
+	return nil
 }
 
 // pframe is one activation on the search stack: the next instruction to run is fn-block b, index i.
@@ -37,6 +56,7 @@ type pnode struct {
 	stack []pframe // innermost last
 	binds []retBind
 	conds []condFact // branch conditions already decided on this path (an SSA value keeps its value until it is re-evaluated)
+	cells []cellFact // tracked variable cells: last store on this path
 	prev  *pnode
 	at    ssa.Instruction
 }
@@ -67,6 +87,9 @@ func (n *pnode) key() string {
 	}
 	for _, c := range n.conds {
 		fmt.Fprintf(&sb, "?%p=%v", c.v, c.val)
+	}
+	for _, c := range n.cells {
+		fmt.Fprintf(&sb, "$%p=%p", c.addr, c.val)
 	}
 	return sb.String()
 }
@@ -139,8 +162,9 @@ func (q *PathQuery) Find() []ssa.Instruction {
 		return rev
 	}
 	var curConds []condFact
+	var curCells []cellFact
 	push := func(parent *pnode, st []pframe, binds []retBind, at ssa.Instruction) {
-		n := &pnode{stack: st, binds: binds, conds: curConds, prev: parent, at: at}
+		n := &pnode{stack: st, binds: binds, conds: curConds, cells: curCells, prev: parent, at: at}
 		k := n.key()
 		if seen[k] {
 			return
@@ -158,6 +182,8 @@ func (q *PathQuery) Find() []ssa.Instruction {
 		}
 		// run the innermost pframe to the end of its block (or until it calls / returns)
 		curConds = n.conds
+		curCells = n.cells
+		q.cur = curCells
 		st := append([]pframe{}, n.stack...)
 		top := &st[len(st)-1]
 		b := top.b
@@ -167,6 +193,20 @@ func (q *PathQuery) Find() []ssa.Instruction {
 			in := b.Instrs[top.i]
 			if v, isV := in.(ssa.Value); isV && len(curConds) > 0 {
 				curConds = dropCond(curConds, v) // the value is computed anew (loop iteration): forget what was decided about it
+			}
+			if stc, isSt := in.(*ssa.Store); isSt && len(q.Track) > 0 {
+				for _, ta := range q.Track {
+					if stc.Addr == ta {
+						nc := []cellFact{{ta, stc.Val}}
+						for _, c := range curCells {
+							if c.addr != ta {
+								nc = append(nc, c)
+							}
+						}
+						curCells = nc
+						q.cur = curCells
+					}
+				}
 			}
 			if d, ok := in.(*ssa.Defer); ok {
 				if q.DeferStop != nil && q.DeferStop(d) {
